@@ -425,13 +425,24 @@ func cmdReplay(args []string) int {
 		return 2
 	}
 	var content struct {
-		Property   string      `json:"property"`
-		Obligation string      `json:"obligation"`
-		Replay     *replaySpec `json:"replay"`
+		Property   string       `json:"property"`
+		Obligation string       `json:"obligation"`
+		Replay     *replaySpec  `json:"replay"`
+		Bounded    *boundedSpec `json:"bounded"`
 	}
 	if err := json.Unmarshal(data, &content); err != nil {
 		fmt.Println(err)
 		return 2
+	}
+	if content.Bounded != nil {
+		r := runBounded(*content.Bounded)
+		fmt.Println(firstLines(r.Log, 30))
+		if !r.Passed {
+			fmt.Printf("VIOLATION property=%s replay=%s\n", content.Property, args[0])
+			return 1
+		}
+		fmt.Println("not reproduced on the current tree")
+		return 0
 	}
 	if content.Replay == nil {
 		fmt.Printf("replay file %s has no concrete input (obligation %s): nothing to run\n", args[0], content.Obligation)
